@@ -108,6 +108,55 @@ def main():
                     break
             if len(failures) >= 3:
                 break
+        # two callers on a cache an interrupted write left behind, in the schedule "both have read (and rejected) the partial file before
+        # either goes on": the only instrumentation is a barrier around load_model that fixes this schedule and a lock that serialises the
+        # compilations; both calls must return the model
+        import threading
+        for k in (0, n // 2):
+            cases += 1
+            for name in os.listdir(folder):
+                if name != "M.mo":
+                    os.remove(os.path.join(folder, name))
+            with open(cache, "wb") as f:
+                f.write(blob[:k])
+            barrier = threading.Barrier(2, timeout=60)
+            real_load, real_compile = api_.load_model, api_._compile_model
+            lock = threading.Lock()
+
+            def load_then_wait(*a, **kw):
+                try:
+                    return real_load(*a, **kw)
+                except BaseException:
+                    try:
+                        barrier.wait()
+                    except threading.BrokenBarrierError:
+                        pass
+                    raise
+
+            def compile_locked(*a, **kw):
+                with lock:
+                    return real_compile(*a, **kw)
+            results = {}
+
+            def caller(i):
+                try:
+                    results[i] = fingerprint(api_.transfer_model(folder, "M", {"cache": True}))
+                except BaseException as e:  # noqa
+                    results[i] = "%s: %s" % (type(e).__name__, str(e)[:100])
+            api_.load_model, api_._compile_model = load_then_wait, compile_locked
+            try:
+                ts = [threading.Thread(target=caller, args=(i,)) for i in (0, 1)]
+                for t in ts:
+                    t.start()
+                for t in ts:
+                    t.join(300)
+            finally:
+                api_.load_model, api_._compile_model = real_load, real_compile
+            for i in (0, 1):
+                if results.get(i) != ref:
+                    failures.append({"class": "truncated-cache", "input": "two concurrent transfer_model calls on a cache cut at %d bytes, both loads failing before either continues" % k,
+                                     "observed": "caller %d: %s" % (i, results.get(i)), "expected": "both callers get the model, no exception"})
+                    break
         # absent cache file
         cases += 1
         if os.path.exists(cache):
@@ -119,7 +168,7 @@ def main():
             failures.append({"class": "truncated-cache", "input": "absent", "observed": "%s: %s" % (type(e).__name__, e), "expected": "recompile"})
     if payload.get("mode") == "bounded":
         print(json.dumps({"performed": True, "cases": cases, "distinct_nontrivial": cases, "failures": failures,
-                          "rule": "a real .pymoca_cache is truncated at %d offsets (incl. 0, 1, n-1) and replaced by garbage, and the real save_model is killed inside its write after 0, 1, n/2, n-1 bytes; the next real transfer_model(cache=True) must return a model whose variables and residual equal a fresh compile" % len(offsets),
+                          "rule": "a real .pymoca_cache is truncated at %d offsets (incl. 0, 1, n-1) and replaced by garbage, and the real save_model is killed inside its write after 0, 1, n/2, n-1 bytes; two concurrent callers meet a partial file (both loads fail before either continues); the next real transfer_model(cache=True) must return a model whose variables and residual equal a fresh compile" % len(offsets),
                           "bound": "one model, %d file variants" % cases}))
     else:
         f = failures[0] if failures else None
